@@ -1394,14 +1394,14 @@ class NetCDFRead(IORead):
                 groups = tuple(ncvar.split("/")[1:-1])
 
                 if groups:
-                    # This variable is in a group. Remove the group
-                    # structure that was prepended to the netCDF
-                    # variable name by the netCDF flattener.
-                    ncvar_basename = re.sub(
-                        f"^{flattener_separator.join(groups)}{flattener_separator}",
-                        "",
-                        ncvar_flat,
-                    )
+                    # This variable is in a group. Its base name is
+                    # the last component of its absolute path. (The
+                    # flattened name can not be relied upon: it is a
+                    # hash when the flattened path is too long or is
+                    # already in use, and group names may contain
+                    # characters that are special in regular
+                    # expressions.)
+                    ncvar_basename = ncvar.split("/")[-1]
 
                     # ------------------------------------------------
                     # Group attributes. Note that, currently,
@@ -1463,12 +1463,9 @@ class NetCDFRead(IORead):
                 groups = tuple(ncdim.split("/")[1:-1])
 
                 if groups:
-                    # This dimension is in a group.
-                    ncdim_basename = re.sub(
-                        f"^{flattener_separator.join(groups)}{flattener_separator}",
-                        "",
-                        ncdim_flat,
-                    )
+                    # This dimension is in a group. Its base name is
+                    # the last component of its absolute path.
+                    ncdim_basename = ncdim.split("/")[-1]
 
             dimension_groups[ncdim] = groups
             dimension_basename[ncdim] = ncdim_basename
